@@ -10,10 +10,10 @@ from mirsmt.interp import Inconclusive
 ORACLE_OF = {
     'C04': ['terminates', 'every-scenario-runs', 'nothing-else-runs', 'every-started-attempt-finishes'],
     'C06': ['in-flight<=limit'],
-    'C07': ['serial-isolation'],
+    'C07': ['serial-dispatched-alone-in-its-batch', 'serial-isolation'],
     'C08': ['fail-fast-stops-dispatching', 'fail-fast-without-failure-runs-everything', 'every-started-attempt-finishes', 'brackets'],
     'C03': ['brackets'],
-    'C05': ['retry-sequencing'],
+    'C05': ['retry-sequencing', 'retry-not-before-delay', 'others-run-during-retry-delay'],
     'C10': ['panic-hook-restored', 'panic-hook-silenced-while-running'],
 }
 
@@ -44,6 +44,24 @@ def worlds(tier, focus):
                 W.append(('failfast d=%s limit=%s' % (d, limit),
                           World([Scen('a', 'C', 0, 0, budget=1, durs=(d[0], 0)), Scen('b', 'C', 0, None, durs=(d[1],)), Scen('c', 'C', 1, 1, durs=(d[2],)),
                                  Scen('e', 'C', 1, None, durs=(0,))], limit, fail_fast=True)))
+    if focus in ('C04', 'C07', 'C03', 'C05'):
+        # lazily delivered features (parser stream Pending `late` polls before an item)
+        for late in ((1, 2) if tier != 'thorough' else (1, 2, 3, 5)):
+            W.append(('lazy-idle late=%d' % late, World([Scen('a', 'C', 0, None, durs=(0,), fails=(False,))], 2, parser=[(late, 0)])))
+            W.append(('lazy-two late=%d' % late, World([Scen('a', 'C', 0, None, durs=(2,), fails=(False,)), Scen('b', 'C', 1, 0, durs=(0,))], 2, parser=[(0, 0), (late, 1)])))
+        for da, db in (((6, 3), (5, 1)) if tier != 'thorough' else ((6, 3), (5, 1), (8, 2), (4, 4))):
+            W.append(('late-serial a=%d b=%d' % (da, db),
+                      World([Scen('a', 'C', 0, None, durs=(da,), fails=(False,)), Scen('b', 'C', 0, None, durs=(db,), fails=(False,)),
+                             Scen('s', 'S', 1, None, durs=(1,), fails=(False,))], 3, parser=[(0, 0), (2, 1)])))
+    if focus in ('C07', 'C05'):
+        for da, db in (((2, 7),) if tier != 'thorough' else ((2, 7), (1, 9), (3, 5))):
+            W.append(('delayed-serial-retry a=%d b=%d' % (da, db),
+                      World([Scen('s', 'S', 0, None, budget=1, delay=True, durs=(0, 0), fails=(True, False)), Scen('a', 'C', 0, None, durs=(da,), fails=(False,)),
+                             Scen('b', 'C', 0, None, durs=(db,), fails=(False,))], 2)))
+    if focus == 'C05':
+        for da in ((1, 4) if tier != 'thorough' else (0, 1, 4, 7)):
+            W.append(('delayed-retry+bystander a=%d' % da,
+                      World([Scen('r', 'C', 0, None, budget=1, delay=True, durs=(0, 0), fails=(True, False)), Scen('a', 'C', 0, None, durs=(da,), fails=(False,))], 2)))
     for d in ([(0, 0, 0), (1, 0, 0)] if tier != 'thorough' else durs3):
         for limit in (2, 3):
             W.append(('failfast-plain d=%s limit=%s' % (d, limit),
@@ -82,7 +100,13 @@ def run(chk, prop, selected=None):
             for n in names:
                 if n not in orc:
                     continue
-                o = ob(n)
+                oname = n
+                if n == 'serial-isolation' and wname.startswith(('late-serial', 'delayed-serial-retry')):
+                    # the serial scenario becomes ready while concurrent ones are in flight: class of the recorded finding
+                    oname = 'serial-isolation[serial-becomes-ready-while-others-in-flight]'
+                o = ob(oname)
+                if oname != n:
+                    o.role = 'serial-dispatched-while-concurrent-in-flight'
                 o.paths += 1
                 if orc[n] is not None:
                     if o.verdict != 'violated':
@@ -97,7 +121,7 @@ def run(chk, prop, selected=None):
             for cand in sorted(o.worlds, key=lambda x: ('retry' in repr([s.budget for s in x[1].scens if s.budget]), len(x[1].scens))):
                 o.world = cand
                 o.verdict = 'violated'
-                if execsim.confirm_native(chk, o, prop, n):
+                if execsim.confirm_native(chk, o, prop, n.split('[')[0]):
                     break
     chk.extra['execute_sim'] = {'worlds': len(ws), 'paths': npaths, 'wall_s': round(time.time() - t0, 1)}
     w_ = chk.add(Obligation('%s.execute.witness' % prop, 'exploration'))
